@@ -352,11 +352,42 @@ def c13(ctx):
         elif not tokens_in_range(o, nr):
             ctx.add('spec', 'shipped/bytes', 'token offsets outside the rune sequence for shipped grammar %s' % info[rid]['name'],
                     {'grammar_file': info[rid]['name'], 'opts': info[rid]['opts'], 'input_b64': L.b64(s)})
+    # shipped grammars against the Lean model and the PEG semantics (they contain no predicates or state changes, so verdict,
+    # tokens, tree and error are fully determined by the model; their actions are arbitrary Go, so no trace is compared)
+    nmodel = 0
+    mreq2 = []
+    for rid in sorted(good2):
+        lst = []
+        for ii, s in enumerate(in2[rid]):
+            if len(s) <= 1500 and len(lst) < (12 if ctx.tier == 'quick' else 60):
+                lst.append({'k': '%s|%d' % (rid, ii), 'entry': first_rule(info[rid]['tree']), 'memo': True, 'bytes': L.bytes_of(s), 'spec': True})
+        if lst:
+            mreq2.append({'id': rid, 'tree': info[rid]['tree'], 'opts': info[rid]['opts'], 'cases': lst})
+    for m in (T.run_model('run', mreq2, jobs=len(mreq2)) if mreq2 else []):
+        if m.get('error'):
+            ctx.add('model', 'shipped/model', 'the model could not run shipped grammar %s: %s' % (m.get('id'), m['error'][:200]), {'grammar_file': m.get('id')})
+        for ob in m.get('obs', []):
+            ro = robs2.get(ob['k'])
+            if ro is None:
+                continue
+            nmodel += 1
+            rid, ii = ob['k'].split('|')
+            for which in ('model', 'spec'):
+                if which == 'spec' and ob['spec'].get('v') == 'nofuel':
+                    continue
+                d = [f for f in L.obs_equal(ro, ob[which], True) if f != 'trace']
+                if d:
+                    ctx.add('spec' if which == 'spec' else 'model', 'shipped/' + which,
+                            'parser of shipped grammar %s differs from the %s on %s' % (info[rid]['name'], which, d),
+                            {'grammar_file': info[rid]['name'], 'input_b64': L.b64(in2[rid][int(ii)]),
+                             'real': {k2: v for k2, v in ro.items() if k2 in ('v', 'max', 'err')}, which: {k2: v for k2, v in ob[which].items() if k2 in ('v', 'max', 'err')},
+                             'model_agrees': which == 'spec' and not [f for f in L.obs_equal(ro, ob['model'], True) if f != 'trace']})
+    ctx.coverage['shipped_vs_model_and_spec'] = nmodel
     ctx.coverage.update({
         'evaluations': neval + nship, 'distinct_nontrivial': sum(1 for o in robs.values() if o.get('v') == 'ok'),
         'rule': 'byte-level inputs (empty, NUL, invalid UTF-8 of every kind, surrogate encodings, non-BMP, U+10FFFF, 90000-rune and 5000-invalid-byte inputs, '
                 'mutations of accepted samples) x generated grammars (memo on/off; real vs model vs spec, offsets checked against Go\'s []rune conversion) and x the shipped '
-                'grammars peg, calculator, calculatorast, c, java, fexl, long under default and -inline -switch (no panic, offsets in range, Error() produced); every generated-grammar input also as the second use of a parser that parsed a longer text before; '
+                'grammars peg, calculator, calculatorast, c, java, fexl, long under default and -inline -switch (no panic, offsets in range, Error() produced; inputs up to 1500 bytes also real vs Lean model vs PEG semantics: verdict, tokens, tree, error); every generated-grammar input also as the second use of a parser that parsed a longer text before; '
                 'non-trivial = accepted inputs',
         'samples': [{'input_b64': L.b64(s)} for s in byte_inputs(rng, [], 16)[:4]],
         'input_distribution': {'generated_grammars': len(good), 'generated_cases': neval, 'shipped_parsers': len(good2), 'shipped_cases': nship, 'panics': npan},
